@@ -1,5 +1,5 @@
 import Scalibr.Spec.Upgrade
-import Scalibr.Model.OverrideMulti
+import Scalibr.Proofs.VersionOrder
 namespace Scalibr.Upgrade
 
 theorem allows_major_all (lvl d : Nat) (h : allows lvl dMajor = true) : allows lvl d = true := by
@@ -93,8 +93,8 @@ end Scalibr.Relax
 namespace Scalibr.Override
 open Scalibr.Upgrade
 
-theorem versionsGreater_ge (vs : List Nat) (vk : Nat) (hs : Sorted vs) :
-    ∀ r ∈ versionsGreater vs vk, vk ≤ r := by
+theorem versionsGreater_ge (rank : Nat → Nat) (vs : List Nat) (vk : Nat) (hs : Sorted rank vs) :
+    ∀ r ∈ versionsGreater rank vs vk, rank vk ≤ rank r := by
   induction vs with
   | nil => intro r hr; simp [versionsGreater] at hr
   | cons x xs ih =>
@@ -102,23 +102,23 @@ theorem versionsGreater_ge (vs : List Nat) (vk : Nat) (hs : Sorted vs) :
     rw [List.pairwise_cons] at hs
     intro r hr
     unfold versionsGreater at hr
-    by_cases hx : x < vk
-    · have htw : (x :: xs).takeWhile (· < vk) = x :: xs.takeWhile (· < vk) := by simp [List.takeWhile, hx]
+    by_cases hx : rank x < rank vk
+    · have htw : (x :: xs).takeWhile (fun y => rank y < rank vk) = x :: xs.takeWhile (fun y => rank y < rank vk) := by
+        simp [List.takeWhile, hx]
       simp only [htw, List.length_cons, List.getElem?_cons_succ, List.drop_succ_cons] at hr
       exact ih hs.2 r hr
-    · have htw : (x :: xs).takeWhile (· < vk) = [] := by simp [List.takeWhile, hx]
-      simp only [htw, List.length_nil, List.getElem?_cons_zero, Option.some.injEq, Nat.zero_add] at hr
+    · have htw : (x :: xs).takeWhile (fun y => rank y < rank vk) = [] := by simp [List.takeWhile, hx]
+      simp only [htw, List.length_nil, List.getElem?_cons_zero, Nat.zero_add] at hr
       split at hr
-      · rename_i hxe
-        simp only [List.drop_succ_cons, List.drop_zero] at hr
+      · simp only [List.drop_succ_cons, List.drop_zero] at hr
         have := hs.1 r hr; omega
       · simp only [List.drop_zero, List.mem_cons] at hr
         rcases hr with rfl | hr
         · omega
         · have := hs.1 r hr; omega
 
-theorem versionsGreater_gt (vs : List Nat) (vk : Nat) (hs : StrictSorted vs) :
-    ∀ r ∈ versionsGreater vs vk, vk < r := by
+theorem versionsGreater_gt (rank : Nat → Nat) (vs : List Nat) (vk : Nat) (hs : StrictSorted rank vs) :
+    ∀ r ∈ versionsGreater rank vs vk, rank vk < rank r := by
   induction vs with
   | nil => intro r hr; simp [versionsGreater] at hr
   | cons x xs ih =>
@@ -126,12 +126,13 @@ theorem versionsGreater_gt (vs : List Nat) (vk : Nat) (hs : StrictSorted vs) :
     rw [List.pairwise_cons] at hs
     intro r hr
     unfold versionsGreater at hr
-    by_cases hx : x < vk
-    · have htw : (x :: xs).takeWhile (· < vk) = x :: xs.takeWhile (· < vk) := by simp [List.takeWhile, hx]
+    by_cases hx : rank x < rank vk
+    · have htw : (x :: xs).takeWhile (fun y => rank y < rank vk) = x :: xs.takeWhile (fun y => rank y < rank vk) := by
+        simp [List.takeWhile, hx]
       simp only [htw, List.length_cons, List.getElem?_cons_succ, List.drop_succ_cons] at hr
       exact ih hs.2 r hr
-    · have htw : (x :: xs).takeWhile (· < vk) = [] := by simp [List.takeWhile, hx]
-      simp only [htw, List.length_nil, List.getElem?_cons_zero, Option.some.injEq, Nat.zero_add] at hr
+    · have htw : (x :: xs).takeWhile (fun y => rank y < rank vk) = [] := by simp [List.takeWhile, hx]
+      simp only [htw, List.length_nil, List.getElem?_cons_zero, Nat.zero_add] at hr
       split at hr
       · rename_i hxe
         simp only [List.drop_succ_cons, List.drop_zero] at hr
@@ -142,11 +143,13 @@ theorem versionsGreater_gt (vs : List Nat) (vk : Nat) (hs : StrictSorted vs) :
         · omega
         · have := hs.1 r hr; omega
 
-theorem versionsGreater_sub (vs : List Nat) (vk : Nat) : ∀ r ∈ versionsGreater vs vk, r ∈ vs := by
+theorem versionsGreater_sub (rank : Nat → Nat) (vs : List Nat) (vk : Nat) : ∀ r ∈ versionsGreater rank vs vk, r ∈ vs := by
   intro r hr
   unfold versionsGreater at hr
   simp only at hr
-  split at hr <;> exact List.mem_of_mem_drop hr
+  split at hr
+  · split at hr <;> exact List.mem_of_mem_drop hr
+  · exact List.mem_of_mem_drop hr
 
 /-- what the scan hands back: the incoming best, or a candidate that was reached through allowed
 differences only and lowered the count -/
@@ -192,7 +195,7 @@ theorem pick_spec (level : Nat) (cs : List Cand) (n0 : Nat) (b : Cand) (h : pick
         exact ⟨hl, h2, h3, by omega⟩
 
 theorem round_spec (u : U) (level vk b : Nat) (h : round u level vk = some b) :
-    level ≠ lNone ∧ b ∈ versionsGreater u.vs vk ∧ allows level (u.diff vk b) = true ∧
+    level ≠ lNone ∧ b ∈ versionsGreater u.rank u.vs vk ∧ allows level (u.diff vk b) = true ∧
     ((vulnsAt u vk).filter (u.aff · b)).length < (vulnsAt u vk).length := by
   unfold round at h
   split at h
@@ -209,37 +212,21 @@ theorem round_spec (u : U) (level vk b : Nat) (h : round u level vk = some b) :
       subst h
       exact ⟨h1, hr, h3, h4⟩
 
-/-- versions of `vs` strictly above `vk`: the termination measure -/
-def above (vs : List Nat) (vk : Nat) : Nat := (vs.filter (vk < ·)).length
+/-- versions of `vs` ranked strictly above `x`: the termination measure -/
+def above (rank : Nat → Nat) (vs : List Nat) (x : Nat) : Nat := (vs.filter (fun y => rank x < rank y)).length
 
-theorem above_lt (vs : List Nat) (vk b : Nat) (hb : b ∈ vs) (hlt : vk < b) : above vs b < above vs vk := by
+theorem above_le (rank : Nat → Nat) (vs : List Nat) (x : Nat) : above rank vs x ≤ vs.length := by
+  unfold above; exact List.length_filter_le _ _
+
+theorem above_lt (rank : Nat → Nat) (vs : List Nat) (vk b : Nat) (hb : b ∈ vs) (hlt : rank vk < rank b) :
+    above rank vs b < above rank vs vk := by
   unfold above
-  induction vs with
-  | nil => cases hb
-  | cons x xs ih =>
-    simp only [List.filter_cons]
-    simp only [List.mem_cons] at hb
-    have hmono : (xs.filter (b < ·)).length ≤ (xs.filter (vk < ·)).length := by
-      clear ih hb
-      induction xs with
-      | nil => simp
-      | cons y ys ihy =>
-        simp only [List.filter_cons]
-        by_cases h1 : b < y
-        · have : vk < y := by omega
-          simp [h1, this]; exact ihy
-        · by_cases h2 : vk < y
-          · simp [h1, h2]; omega
-          · simp [h1, h2]; exact ihy
-    rcases hb with rfl | hb
-    · simp [hlt]; omega
-    · have := ih hb
-      by_cases h1 : b < x
-      · have : vk < x := by omega
-        simp [h1, this]; exact ih hb
-      · by_cases h2 : vk < x
-        · simp [h1, h2]; omega
-        · simp [h1, h2]; exact ih hb
+  apply filter_length_lt _ _ vs _ b hb
+  · simp
+  · simp [hlt]
+  · intro y _ hy
+    simp only [decide_eq_true_eq] at hy ⊢
+    omega
 
 end Scalibr.Override
 
@@ -247,7 +234,7 @@ namespace Scalibr.OverrideMulti
 open Scalibr.Upgrade Scalibr.Override
 
 theorem pickP_spec (u : MU) (p vk b : Nat) (h : pickP u p vk = some b) :
-    u.level p ≠ lNone ∧ b ∈ versionsGreater (u.vs p) vk ∧ allows (u.level p) (u.diff p vk b) = true ∧
+    u.level p ≠ lNone ∧ b ∈ versionsGreater (u.rank p) (u.vs p) vk ∧ allows (u.level p) (u.diff p vk b) = true ∧
     ((vulnsAt u p vk).filter (u.aff · p b)).length < (vulnsAt u p vk).length := by
   unfold pickP at h
   split at h
@@ -263,6 +250,156 @@ theorem pickP_spec (u : MU) (p vk b : Nat) (h : pickP u p vk = some b) :
       simp only at h h3 h4
       subst h
       exact ⟨h1, hr, h3, h4⟩
+
+/-- termination measure of one package: versions still above its requirement (all of them, and one more, while it has none) -/
+def slack (u : MU) (p : Nat) : Option Nat → Nat
+  | none => (u.vs p).length + 1
+  | some b => above (u.rank p) (u.vs p) b
+
+def measure (u : MU) (pins : Pins) : Nat := ((List.range u.np).map fun p => slack u p (pins.getD p none)).sum
+
+theorem sum_range_lt (n : Nat) (f g : Nat → Nat) (hle : ∀ p < n, g p ≤ f p) (q : Nat) (hq : q < n) (hlt : g q < f q) :
+    ((List.range n).map g).sum < ((List.range n).map f).sum := by
+  induction n with
+  | zero => omega
+  | succ n ih =>
+    simp only [List.range_succ, List.map_append, List.sum_append, List.map_cons, List.map_nil, List.sum_cons, List.sum_nil]
+    have hle' : ((List.range n).map g).sum ≤ ((List.range n).map f).sum := by
+      clear ih hq hlt
+      induction n with
+      | zero => simp
+      | succ m ihm =>
+        simp only [List.range_succ, List.map_append, List.sum_append, List.map_cons, List.map_nil, List.sum_cons, List.sum_nil]
+        have := ihm (fun p hp => hle p (by omega))
+        have := hle m (by omega)
+        omega
+    by_cases hqn : q = n
+    · subst hqn; omega
+    · have := ih (fun p hp => hle p (by omega)) (by omega)
+      have := hle n (by omega)
+      omega
+
+theorem round_getD (u : MU) (res : Res) (pins : Pins) (p : Nat) (hp : p < u.np) :
+    (round u res pins).getD p none = stepP u res pins p := by
+  unfold round
+  simp [List.getD, List.getElem?_map, List.getElem?_range hp]
+
+/-- one package's slack never grows in a round and shrinks when the package is patched -/
+theorem slack_step (u : MU) (res : Res) (pins : Pins) (p : Nat)
+    (hpin : ∀ b, pins.getD p none = some b → res.getD p none = some b ∨ res.getD p none = none)
+    (hs : StrictSorted (u.rank p) (u.vs p)) :
+    slack u p (stepP u res pins p) ≤ slack u p (pins.getD p none) ∧
+    (patchedP u res p = true → slack u p (stepP u res pins p) < slack u p (pins.getD p none)) := by
+  unfold stepP patchedP
+  cases hr : res.getD p none with
+  | none => simp
+  | some r =>
+    simp only
+    cases hp : pickP u p r with
+    | none => simp
+    | some b =>
+      simp only [Option.isSome_some, forall_const]
+      obtain ⟨_, hb, _, _⟩ := pickP_spec u p r b hp
+      have hbv := versionsGreater_sub _ _ _ b hb
+      have hlt := versionsGreater_gt _ _ _ hs b hb
+      have key : slack u p (some b) < slack u p (pins.getD p none) := by
+        cases hpp : pins.getD p none with
+        | none => simp only [slack]; have := above_le (u.rank p) (u.vs p) b; omega
+        | some b0 =>
+          rcases hpin b0 hpp with h | h
+          · rw [hr] at h; injection h with h; subst h
+            simp only [slack]; exact above_lt _ _ _ _ hbv hlt
+          · rw [hr] at h; cases h
+      exact ⟨Nat.le_of_lt key, key⟩
+
+theorem round_measure_lt (u : MU) (res : Res) (pins : Pins)
+    (hpin : ∀ p b, pins.getD p none = some b → res.getD p none = some b ∨ res.getD p none = none)
+    (hs : ∀ p, StrictSorted (u.rank p) (u.vs p)) (hd : didPatch u res = true) :
+    measure u (round u res pins) < measure u pins := by
+  unfold didPatch at hd
+  rw [List.any_eq_true] at hd
+  obtain ⟨q, hq, hpq⟩ := hd
+  rw [List.mem_range] at hq
+  unfold measure
+  have e : (List.range u.np).map (fun p => slack u p ((round u res pins).getD p none)) =
+      (List.range u.np).map (fun p => slack u p (stepP u res pins p)) := by
+    apply List.map_congr_left
+    intro p hp
+    rw [round_getD u res pins p (List.mem_range.mp hp)]
+  rw [e]
+  apply sum_range_lt u.np _ _ (fun p _ => (slack_step u res pins p (hpin p) (hs p)).1) q hq
+  exact (slack_step u res pins q (hpin q) (hs q)).2 hpq
+
+theorem loop_done (u : MU) (resolve : Pins → Res) (hh : HonoursPinsM resolve)
+    (hs : ∀ p, StrictSorted (u.rank p) (u.vs p)) (fuel : Nat) (pins : Pins) (k : Nat) (hf : measure u pins < fuel) :
+    (loop u resolve fuel pins k).done = true := by
+  induction fuel generalizing pins k with
+  | zero => omega
+  | succ f ih =>
+    simp only [loop]
+    by_cases hd : didPatch u (resolve pins) = true
+    · simp only [hd, if_true]
+      apply ih
+      have := round_measure_lt u (resolve pins) pins (fun p b h => hh pins p b h) hs hd
+      omega
+    · simp [hd]
+
+theorem measure_le (u : MU) (pins : Pins) : measure u pins ≤ ((List.range u.np).map fun p => (u.vs p).length + 1).sum := by
+  unfold measure
+  have : ∀ n, ((List.range n).map fun p => slack u p (pins.getD p none)).sum ≤ ((List.range n).map fun p => (u.vs p).length + 1).sum := by
+    intro n
+    induction n with
+    | zero => simp
+    | succ m ih =>
+      simp only [List.range_succ, List.map_append, List.sum_append, List.map_cons, List.map_nil, List.sum_cons, List.sum_nil]
+      have : slack u m (pins.getD m none) ≤ (u.vs m).length + 1 := by
+        cases pins.getD m none with
+        | none => simp [slack]
+        | some b => simp only [slack]; have := above_le (u.rank m) (u.vs m) b; omega
+      omega
+  exact this u.np
+
+/-- invariant of the loop for the packages the manifest pinned from the start (direct dependencies) -/
+def Within (u : MU) (pins0 pins : Pins) : Prop :=
+  ∀ p, p < u.np → ∀ a, pins0.getD p none = some a →
+    ∃ b, pins.getD p none = some b ∧ u.rank p a ≤ u.rank p b ∧ allows (u.level p) (u.diff p a b) = true
+
+theorem within_round (u : MU) (res : Res) (pins0 pins : Pins)
+    (L : ∀ p, DiffClassLaws (u.diff p)) (hs : ∀ p, Sorted (u.rank p) (u.vs p))
+    (hpin : ∀ p b, pins.getD p none = some b → res.getD p none = some b ∨ res.getD p none = none)
+    (hw : Within u pins0 pins) : Within u pins0 (round u res pins) := by
+  intro p hp a ha
+  obtain ⟨b, hb, hle, hal⟩ := hw p hp a ha
+  rw [round_getD u res pins p hp]
+  unfold stepP
+  cases hr : res.getD p none with
+  | none => exact ⟨b, hb, hle, hal⟩
+  | some r =>
+    simp only
+    cases hpk : pickP u p r with
+    | none => exact ⟨b, hb, hle, hal⟩
+    | some b' =>
+      simp only
+      have hrb : r = b := by
+        rcases hpin p b hb with h | h
+        · rw [hr] at h; injection h
+        · rw [hr] at h; cases h
+      subst hrb
+      obtain ⟨_, hvg, hal', _⟩ := pickP_spec u p r b' hpk
+      have hge := versionsGreater_ge _ _ _ (hs p) b' hvg
+      exact ⟨b', rfl, Nat.le_trans hle hge, allows_trans (u.diff p) (L p) (u.level p) a r b' hal hal'⟩
+
+theorem within_loop (u : MU) (resolve : Pins → Res) (hh : HonoursPinsM resolve)
+    (L : ∀ p, DiffClassLaws (u.diff p)) (hs : ∀ p, Sorted (u.rank p) (u.vs p))
+    (pins0 : Pins) (fuel : Nat) (pins : Pins) (k : Nat) (hw : Within u pins0 pins) :
+    Within u pins0 (loop u resolve fuel pins k).pins := by
+  induction fuel generalizing pins k with
+  | zero => exact hw
+  | succ f ih =>
+    simp only [loop]
+    split
+    · exact ih _ _ (within_round u (resolve pins) pins0 pins L hs (fun p b h => hh pins p b h) hw)
+    · exact hw
 
 end Scalibr.OverrideMulti
 
